@@ -237,6 +237,15 @@ func c04Run(c c04Case, r *hx.Rec) error {
 		} else {
 			payload := hx.WriteJSONVariant(hx.NormalizeGeneric(jv), hx.JSONStyle{KeyOrder: 2})
 			e, _ := hx.HarnessSignDSSE(k, hx.InTotoPayloadType, payload)
+			// DSSE makes the key id optional: an independent signer may leave it empty or out
+			switch c.Probe.A % 3 {
+			case 1:
+				e["keyid"] = ""
+				r.Label("foreign-keyid-empty")
+			case 2:
+				delete(e, "keyid")
+				r.Label("foreign-keyid-omitted")
+			}
 			_ = hx.WriteDSSEFile(fp, hx.InTotoPayloadType, payload, []map[string]any{e})
 		}
 		l, err := intoto.LoadMetadata(fp)
